@@ -270,7 +270,7 @@ def invalid_for(spec, rng, depth=0):
     cands += [1, 'x', [1]]
     if spec.schema is not None and not spec.schema.dynamic_field:
       ok = value_for(spec, rng, True, depth)
-      ok = dict(ok)
+      ok = dict(ok or {})
       ok['__undeclared__'] = 1
       cands.append(ok)
   elif isinstance(spec, T.Object):
